@@ -124,6 +124,9 @@ pub enum Op {
     DropIter,
     /// n gets of one key (exhausts allowed seeks -> seek compaction)
     GetMany(u8, u16),
+    /// n fresh iterators, each seeking one key (iterators sample the entries they parse: charges
+    /// seeks through `record_read_sample`, the other route to a seek-triggered compaction)
+    IterSeekMany(u8, u16),
     Get(u8),
     /// 0..=6 NumFilesAtLevel(l), 7 NumFilesAtLevel(7) (invalid), 8 Stats, 9 SSTables
     Desc(u8),
@@ -166,6 +169,7 @@ impl Op {
             Op::Iter => "iter".into(),
             Op::DropIter => "dropiter".into(),
             Op::GetMany(i, n) => format!("get*{} {}", n, esc(&keys[*i as usize])),
+            Op::IterSeekMany(i, n) => format!("iterseek*{} {}", n, esc(&keys[*i as usize])),
             Op::Get(i) => format!("get {}", esc(&keys[*i as usize])),
             Op::Desc(d) => format!("desc{}", d),
             Op::Scan => "scan".into(),
@@ -575,6 +579,31 @@ impl World {
             }
             Op::DropIter => {
                 self.iter = None;
+            }
+            Op::IterSeekMany(k, n) => {
+                let key = self.keys[*k as usize].clone();
+                // the first visible key at or after `key`, with its value
+                let want = self.model.range(key.clone()..).next().map(|(k, v)| (k.clone(), v.clone()));
+                for _ in 0..*n {
+                    let it = self
+                        .db()
+                        .new_iterator(ReadOptions::default())
+                        .map_err(|e| Violation::new("iter.err", format!("new_iterator failed: {}", e)))?;
+                    let mut it: DbIter = Box::new(it);
+                    it.seek(&key).map_err(|e| Violation::new("C04.err", format!("seek({}) failed: {}", esc(&key), e)))?;
+                    let got = if it.is_valid() { it.current().map(|(k, v)| (k.clone(), v.clone())) } else { None };
+                    if got != want {
+                        return Err(Violation::new(
+                            "C04.cursor",
+                            format!(
+                                "a fresh iterator after seek({}) is at {:?} but a sorted map would be at {:?}",
+                                esc(&key),
+                                got.as_ref().map(|(k, v)| format!("{}={}", esc(k), show_val(v))),
+                                want.as_ref().map(|(k, v)| format!("{}={}", esc(k), show_val(v)))
+                            ),
+                        ));
+                    }
+                }
             }
             Op::GetMany(k, n) => {
                 let key = self.keys[*k as usize].clone();
